@@ -279,3 +279,7 @@ pub mod db_probe;
 // C15 C16 C17 C19: the real master task over the pipe
 #[path = "master_probe.rs"]
 pub mod master_probe;
+
+// C01: formatting `tracing` sink, so that the decode-level Display paths really run
+#[path = "trace_sink.rs"]
+pub mod trace_sink;
